@@ -100,6 +100,24 @@ let () =
       ((match packet_decode (bt p) with
         | PdOk f -> fields_tok f | PdError -> "err" | PdUnsupported -> "unsup" | PdNotModelled -> "notmodelled"), out)
     | _ -> bad ());
+  let hexbytes h = bt ("x" ^ h) in
+  let notas t = if t = "_" then [] else
+    List.map (fun s -> match String.split_on_char ';' s with [a; b] -> (hexbytes a, hexbytes b) | _ -> failwith "notation") (String.split_on_char ',' t) in
+  register "prep" (function [kind; ty; pk; h; st; t2; flags; issuer; s1; s2; n1; n2; bis; nota; out] ->
+      let ty = nh ty and pk = nh pk and h = nh h and st = nh st and t2 = nh t2 and n1 = nh n1 and n2 = nh n2 in
+      let flags = bt flags and issuer = bt issuer and s1 = bt s1 and s2 = bt s2 and bis = (bis = "1") and nota = notas nota in
+      (tb (match kind with
+        | "self" -> prep_self ty pk h st t2 flags issuer bis
+        | "revoker" -> prep_revoker pk h st flags issuer n1 s2 bis
+        | "detached" -> prep_detached ty pk h st t2 s1 issuer
+        | "detached5" -> prep_detached_v5 ty pk h st t2 s1 issuer
+        | "revocation" -> prep_revocation ty pk h st n1 s1 issuer
+        | "certification" -> prep_certification ty pk h st t2 s1 issuer
+        | "ts_hash" -> prep_timestamp_hash pk h st s1 issuer n1 n2 s2 nota
+        | "ts_sig" -> prep_timestamp_sig pk h st s1 issuer s2 nota
+        | "attest" -> prep_attestation pk h st s1 issuer s2 nota
+        | _ -> failwith "kind"), out)
+    | _ -> bad ());
   register "penc" (function [p; out] ->
       ((match packet_decode (bt p) with
         | PdOk f -> if packet_of f = bt p then "same" else "differs:" ^ tb (packet_of f)
